@@ -109,8 +109,10 @@ impl Aggregator {
             }
             TopicLogSyncEvent::SessionFinished { metrics } => {
                 self.handle_session_end(session_id);
-                self.total_bytes_sent += metrics.sent_bytes();
-                self.total_bytes_received += metrics.received_bytes();
+                // Bytes of the sync phase were already added to the totals on `SyncFinished`,
+                // only what was transferred in live mode since then is still unaccounted for.
+                self.total_bytes_sent += metrics.sent_live_bytes;
+                self.total_bytes_received += metrics.received_live_bytes;
                 None
             }
             TopicLogSyncEvent::Failed { error } => {
